@@ -507,7 +507,12 @@ def gen_shard_case(rng):
             t['poms'].append({'preds': [tm('const', EX + 'p/livesWith')], 'objs': [{'m': tm('parent', par['id']), 'lang': None, 'dt': None, 'joins': [['city', 'city']]}], 'graphs': []})
             doc.append(par)
         layout = [[[t0['id'], t0['id'] + 'Parent']], [[t1['id'], t1['id'] + 'Parent']]]
-    return {'cfg': {'nquads': rng.random() < 0.3, 'mode': rng.choice(['NO', 'PARTIAL-AGGREGATIONS', 'MAXIMAL'])}, 'sources': srcs, 'doc': doc, 'layout': layout}
+    out = {'cfg': {'nquads': rng.random() < 0.3, 'mode': rng.choice(['NO', 'PARTIAL-AGGREGATIONS', 'MAXIMAL'])}, 'sources': srcs, 'doc': doc, 'layout': layout}
+    if len(doc) == 2 and rng.random() < 0.3:
+        # one section reads a CSV file named by its file_path option, the other a database table
+        srcs[0]['kind'] = 'csv'; srcs[0].pop('table', None); srcs[0].pop('db', None)
+        out['section_file_path'] = {0: 'S0'}
+    return out
 
 
 def materialise_files(case, wd, style=None, name='m'):
@@ -599,11 +604,17 @@ def materialise_layout(case, wd, layout, style=None, name='m', relative_ids=Fals
             fn = '%s_s%d_f%d.ttl' % (name, si, fi)
             # relative identifiers: every file names its triples maps <#L0>, <#L1>, ... (resolved against the file's own base)
             style.idmap = {tid: '<#L%d>' % k for k, tid in enumerate(ids)} if relative_ids else {}
+            sfp = (case.get('section_file_path') or {}).get(si, (case.get('section_file_path') or {}).get(str(si)))
+            spaths = dict(paths, **({sfp: 'ignored-by-file_path.csv'} if sfp else {}))
             with open(os.path.join(wd, fn), 'w', encoding='utf-8') as f:
-                f.write(render_mapping(case, style, paths, tms=[by_id[i] for i in ids]))
+                f.write(render_mapping(case, style, spaths, tms=[by_id[i] for i in ids]))
             names.append(fn)
         opts = {'mappings': ','.join(names)}
-        if has_db:
+        sfp = (case.get('section_file_path') or {}).get(si, (case.get('section_file_path') or {}).get(str(si)))
+        if sfp:
+            opts['file_path'] = paths[sfp]          # this section names its file by the file_path option
+        srcs_here = [s_ for s_ in case['sources'] if any(by_id[i]['src'] == s_['key'] for i in sum(files, []))]
+        if has_db and any(s_.get('kind') in ('sqltable', 'sqlquery') for s_ in srcs_here):
             opts['db_url'] = 'sqlite:///' + _db_file(name, _section_db(case, sum(files, [])))
         sections.append(('DS%d' % si, opts))
     return config_text(case, sections)
